@@ -120,8 +120,8 @@ def _jnp():
     return jnp
 
 
-def m_ptw(f, v, args):
-    jnp = _jnp()
+def m_ptw(f, v, args, jnp=None):
+    jnp = jnp or _jnp()
     if f == "sqrt":
         return jnp.sqrt(v)
     if f == "sin":
@@ -190,9 +190,9 @@ JAXMD_FUNCS = {
 }
 
 
-def lh_value(kind, v, seed, par):
+def lh_value(kind, v, seed, par, jnp=None):
     """negative log-likelihoods as documented (C11 owns their correctness as pdfs)"""
-    jnp = _jnp()
+    jnp = jnp or _jnp()
     if kind == "gauss":
         d = lh_data(kind, seed, par, v.shape)
         r = v - d if d is not None else v
@@ -268,9 +268,10 @@ def lh_metric_diag(kind, v, seed, par):
 class Mirror:
     """evaluates nodes of a program on an environment {key: jnp array}"""
 
-    def __init__(self, prog):
+    def __init__(self, prog, xp=None):
         self.prog = prog
         self.nodes = prog["nodes"]
+        self.xp = xp          # numpy (generation) or jax.numpy (oracle); default jax.numpy
 
     # -- evaluation ---------------------------------------------------------
     def ev(self, i, env, cache=None):
@@ -283,7 +284,7 @@ class Mirror:
         return r
 
     def _ev(self, i, env, cache):
-        jnp = _jnp()
+        jnp = self.xp or _jnp()
         nd = self.nodes[i]
         op = nd[0]
         E = lambda j: self.ev(j, env, cache)
@@ -292,7 +293,7 @@ class Mirror:
         if op == "vars":
             return {k: env[k] for k in nd[1]}
         if op == "ptw":
-            return m_ptw(nd[1], E(nd[2]), nd[3:])
+            return m_ptw(nd[1], E(nd[2]), nd[3:], jnp)
         if op == "scale":
             return E(nd[1])*nd[2]
         if op == "addc":
@@ -310,7 +311,7 @@ class Mirror:
         if op == "divn":
             return E(nd[1])/nd[2]
         if op == "pown":
-            return m_ptw("power", E(nd[1]), [nd[2]])
+            return m_ptw("power", E(nd[1]), [nd[2]], jnp)
         if op == "rpown":
             return jnp.exp(E(nd[1])*np.log(nd[2]))
         if op == "neg":
@@ -390,7 +391,7 @@ class Mirror:
             return {k: a[k]*b[k] for k in a}
         if op == "mdptw":
             a = E(nd[2])
-            return {k: m_ptw(nd[1], a[k], nd[3:]) for k in a}
+            return {k: m_ptw(nd[1], a[k], nd[3:], jnp) for k in a}
         if op == "get":
             return E(nd[1])[nd[2]]
         if op == "subst":
@@ -410,7 +411,7 @@ class Mirror:
                 return 0.5*(jnp.sum(r*r*ic) - jnp.sum(jnp.log(ic)))
             if kind == "jaxlh":
                 return 0.5*jnp.sum((v[par["keys"][0]]*jnp.exp(0.2*v[par["keys"][1]]) - 0.3)**2)
-            return lh_value(kind, v, seed, par)
+            return lh_value(kind, v, seed, par, jnp)
         if op == "lhscale":
             return E(nd[1])*nd[2]
         if op == "lhsum":
@@ -466,6 +467,18 @@ class Layout:
                 v = vec[o:o + n]
                 o += n
             out[k] = xp.reshape(v, s)
+        if not self.multi:
+            return out[None]
+        return out
+
+    def unpack_expanded(self, vec):
+        """inverse of pack(expand=True): real-typed entries come back real"""
+        out, o = {}, 0
+        for k, s, c in self.items:
+            n = int(np.prod(s, dtype=np.int64))
+            re, im = vec[o:o + n], vec[o + n:o + 2*n]
+            o += 2*n
+            out[k] = np.reshape(re + 1j*im if c else re, s)
         if not self.multi:
             return out[None]
         return out
@@ -845,7 +858,7 @@ class Gen:
             self.inputs[key] = [ds, c, pos]
             self.env[key] = self.draw_point(ds, c, pos, rng)
         self.nsteps = int(rng.integers(steps[0], steps[1] + 1))
-        self.mirror = Mirror(dict(nodes=self.nodes))
+        self.mirror = Mirror(dict(nodes=self.nodes), xp=np)
         self.cache = {}
 
     # -- points -----------------------------------------------------------
@@ -879,7 +892,8 @@ class Gen:
         ok = depth <= self.maxdepth or nd[0] in ("subst", "lh", "lhsum", "lhscale", "ham")
         if ok and not self.total:
             try:
-                v = self.mirror.ev(i, self.env, self.cache)
+                with np.errstate(all="ignore"):
+                    v = self.mirror.ev(i, self.env, self.cache)
                 val = {k: np.asarray(a) for k, a in v.items()} if isinstance(v, dict) \
                     else np.asarray(v)
                 ok = _ok_value(val)
@@ -1142,6 +1156,8 @@ class Gen:
         if a is None:
             return None
         k = ["real", "imag", "conj"][int(rng.integers(0, 3))]
+        if k == "imag" and not self.info[a]["t"][2]:
+            return None          # Imaginizer refuses real input by design
         return self.add([k, a], self.info[a]["t"], [a])
 
     def p_pack(self):
@@ -1580,29 +1596,54 @@ def x_to_vals(prog, x):
     return x
 
 
-def mirror_value_and_jac(prog, node, xvec, out_keys=None):
-    """value (expanded real vector) and Jacobian d(expanded out)/d(xvec) of a node, by the
-    mirror.  Returns (val_dict_or_array, vec, J, out_layout)"""
+def mirror_value_and_jac(prog, node, xvec, out_keys=None, stats=None):
+    """value and Jacobian d(expanded out)/d(xvec) of a node by jax forward-mode autodiff of
+    the mirror.  ``jax.jvp(mirror)`` is traced once; the traced program is evaluated per
+    basis tangent by vf.jaxpr_np (fallback: jax.jit(jax.jacfwd)).
+    Returns (value as array/dict, expanded value vector, J, out_layout)"""
     import jax
     import jax.numpy as jnp
+    from vf import jaxpr_np
     lay = input_layout(prog)
-    mir = Mirror(prog)
-
-    def raw(xv):
-        return mir.ev(node, env_from(prog, lay, xv, xp=jnp), {})
-    v0 = raw(jnp.asarray(xvec))
-    if isinstance(v0, dict):
-        keys = sorted(v0) if out_keys is None else list(out_keys)
-        olay = Layout([(k, np.shape(v0[k]), np.iscomplexobj(v0[k])) for k in keys])
-    else:
-        olay = Layout([(None, np.shape(v0), np.iscomplexobj(v0))])
+    mir = Mirror(prog, xp=jnp)
+    box = {}
 
     def f(xv):
-        return olay.pack(raw(xv), expand=True, xp=jnp)
-    J = np.asarray(jax.jacfwd(f)(jnp.asarray(xvec)))
-    val = {k: np.asarray(a) for k, a in v0.items()} if isinstance(v0, dict) else np.asarray(v0)
-    return val, np.asarray(f(jnp.asarray(xvec))), J.reshape(olay.size(expand=True), len(xvec)), \
-        olay
+        v = mir.ev(node, env_from(prog, lay, xv, xp=jnp), {})
+        if isinstance(v, dict):
+            keys = sorted(v) if out_keys is None else list(out_keys)
+            olay = Layout([(k, np.shape(v[k]), jnp.iscomplexobj(v[k])) for k in keys])
+        else:
+            olay = Layout([(None, np.shape(v), jnp.iscomplexobj(v))])
+        box["olay"] = olay
+        return olay.pack(v, expand=True, xp=jnp)
+
+    x0 = np.asarray(xvec, dtype=np.float64)
+    n = len(x0)
+    jp = jax.make_jaxpr(lambda a, t: jax.jvp(f, (a,), (t,)))(x0, x0)
+    olay = box["olay"]
+    m = olay.size(expand=True)
+    J = np.zeros((m, n))
+    vec = None
+    try:
+        with np.errstate(all="ignore"):
+            for j in range(n):
+                e = np.zeros(n)
+                e[j] = 1.
+                val, dval = jaxpr_np.eval_jaxpr(jp.jaxpr, jp.consts, x0, e)
+                J[:, j] = np.asarray(dval, dtype=np.float64).reshape(-1)
+                vec = np.asarray(val, dtype=np.float64).reshape(-1)
+            if n == 0:
+                vec = np.asarray(f(jnp.asarray(x0)))
+        if stats is not None:
+            stats["np"] = stats.get("np", 0) + 1
+    except jaxpr_np.Unsupported as ex:
+        if stats is not None:
+            stats["xla"] = stats.get("xla", 0) + 1
+            stats["unsupported:" + str(ex)] = 1
+        vec, J = jax.jit(lambda a: (f(a), jax.jacfwd(f)(a)))(jnp.asarray(x0))
+        vec, J = np.asarray(vec), np.asarray(J).reshape(m, n)
+    return olay.unpack_expanded(vec), vec, J, olay
 
 
 def expected_metric(prog, node, xvec):
